@@ -141,3 +141,11 @@ CLAIMED['C18'] = (
     'np.fft by contract; arcsin/arctan2 uninterpreted (only r checked); frame 0 concrete; vector-length identity only on orthogonal cells with one symbolic axis (thorough); z3.',
     'DESIGN.md §3 C18')
 NOT_APPLICABLE.pop('C18', None)
+CLAIMED['C07'] = (
+    'relational symbolic execution: the real code is run on symbolic data and on its rotated / translated / relabelled image, and z3 decides the relation between the two results',
+    'For all atom positions on the scanned lines and all symbolic event/jump/sample data in the bound: site states identical on a lattice and its rigid rotation and after translating atoms and sites together '
+    'through the cell faces (outside a 1e-5 A band around sphere surfaces); jump diffusivity identical after rotation; jumps identical up to relabelling under atom permutation; count matrices permuted '
+    'consistently under site permutation; density volume rolled by whole-voxel shifts; optimal path cost unchanged under grid roll.',
+    'Rotations, shift vectors and permutations are concrete pool members (data symbolic); relies on the contracts of C02/C05/C08/C10; radial distributions and metrics under rotation are outside; z3.',
+    'DESIGN.md §3 C07')
+NOT_APPLICABLE.pop('C07', None)
